@@ -71,7 +71,12 @@ func (d *Driver) read() {
 				}
 
 				b = []byte(ss[1])
-			} else if d.Channel.PromptPattern.Match(b) {
+			}
+
+			// what followed the echo in the same read may already be a complete reply: file it now, if
+			// we waited for the next read another message could arrive and both would be filed under
+			// the first message-id (losing the second reply)
+			if !bytes.Contains(b, []byte("</rpc>")) && d.Channel.PromptPattern.Match(b) {
 				var messageID int
 
 				var subID int
